@@ -60,6 +60,25 @@ static void rk4Geodesic(const ContactGeometry& geo, Vec3 x, Vec3 t, double L, in
 }
 
 // ================================================================================================ analytic shooters
+// knot-array bookkeeping of the legacy Geodesic object: all per-knot arrays have one entry per frame (or are unused), the
+// arc lengths start at 0 and do not decrease, every frame is a surface point with unit tangent (y) in the tangent plane and
+// z along the surface normal.  Returns the number of violated items.
+static int geodesicBookkeeping(const Geodesic& gd, const ContactGeometry& geo, double scale, double tol) {
+    int bad = 0; const int N = gd.getNumPoints();
+    if ((int)gd.getArcLengths().size() != N) ++bad;
+    auto sized = [&](size_t n) { if (n != 0 && (int)n != N) ++bad; };
+    sized(gd.getCurvatures().size()); sized(gd.getDirectionalSensitivityPtoQ().size()); sized(gd.getDirectionalSensitivityQtoP().size());
+    sized(gd.getPositionalSensitivityPtoQ().size()); sized(gd.getPositionalSensitivityQtoP().size());
+    const Array_<Real>& s = gd.getArcLengths();
+    if (!s.empty() && s.front() != 0) ++bad;
+    for (int i = 1; i < (int)s.size(); ++i) if (!(s[i] >= s[i-1])) { ++bad; break; }
+    for (auto& X : gd.getFrenetFrames()) { Vec3 g = geo.calcSurfaceGradient(X.p()); double gn = g.norm();
+        if (!(std::abs(geo.calcSurfaceValue(X.p())) / (gn * scale) <= tol)) { ++bad; break; }
+        if (!(std::abs(~Vec3(X.y()) * g) / gn <= tol)) { ++bad; break; }
+        if (!((Vec3(X.z()) % g).norm() / gn <= tol)) { ++bad; break; } }
+    return bad;
+}
+
 static void caseAnalytic(bool sphere, const std::string& cls, const std::vector<double>& v) {
     double r = v[0]; Vec3 p0 = V(v, 1), ta = V(v, 4); double L = v[7]; int N = (int)v[8];
     const char* fn = sphere ? "geo.sph" : "geo.cyl";
@@ -117,6 +136,7 @@ static void casePQ(bool sphere, const std::string& cls, const std::vector<double
     vh::P("tangent_orthogonal_normal", K + ".tangent_orthogonal_normal", fr.empty() ? NAN : eO, 1e-12);
     Vec3 Pp = sphere ? r * Vec3(UnitVec3(P)) : P, Qp = sphere ? r * Vec3(UnitVec3(Q)) : Q;
     vh::P("end_points", K + ".end_points", fr.empty() ? NAN : std::max((gd.getPointP() - Pp).norm(), (gd.getPointQ() - Qp).norm()) / r, 1e-11);
+    vh::P("knot_bookkeeping", K + ".bookkeeping", geodesicBookkeeping(gd, *geo, r, 1e-11), 0);
     // agreement with shooting: shoot analytically from P along the returned tangent for the returned length: must arrive at Q
     std::vector<Knot> ks; geo->shootGeodesicInDirectionAnalytically(Pp, Vec3(gd.getTangentP()), gd.getLength(), 2, [&](const Knot& k) { ks.push_back(k); });
     vh::P("shoot_arrives_at_Q", K + ".shoot_arrives_at_Q", ks.size() == 2 ? (ks[1].point - Qp).norm() / r : NAN, 1e-10);
@@ -148,14 +168,14 @@ static void caseImplicit(const std::string& cls, const std::vector<double>& v) {
     // independent fine RK4 from the first knot (which is on the surface with a tangent in the tangent plane)
     Vec3 xe, te; rk4Geodesic(*geo, ks[0].point, Vec3(ks[0].tangent), L, 4000, xe, te);
     vh::P("matches_geodesic_equation", K + ".negligible_geodesic_curvature",
-          std::max((ks.back().point - xe).norm() / scale, (Vec3(ks.back().tangent) - te).norm()), 1e-6);
+          std::max((ks.back().point - xe).norm() / scale, (Vec3(ks.back().tangent) - te).norm()), 1e-7);   // integrator accuracy 1e-10, measured <= 4.3e-9
     // agreement with the analytic method where one exists
     if (geo->isAnalyticFormAvailable()) {
         std::vector<Knot> ka; geo->shootGeodesicInDirectionAnalytically(p0, ta, L, 2, [&](const Knot& k) { ka.push_back(k); });
         vh::P("implicit_vs_analytic_start", K + ".vs_analytic_start", std::max((ks[0].point - ka[0].point).norm() / scale, (Vec3(ks[0].tangent) - Vec3(ka[0].tangent)).norm()), 1e-9);
-        vh::P("implicit_vs_analytic_end", K + ".vs_analytic_end", std::max((ks.back().point - ka[1].point).norm() / scale, (Vec3(ks.back().tangent) - Vec3(ka[1].tangent)).norm()), 1e-6);
+        vh::P("implicit_vs_analytic_end", K + ".vs_analytic_end", std::max((ks.back().point - ka[1].point).norm() / scale, (Vec3(ks.back().tangent) - Vec3(ka[1].tangent)).norm()), 1e-7);
         vh::P("implicit_vs_analytic_jacobi", K + ".vs_analytic_jacobi",
-              std::max(std::abs(ks.back().jacobiRot - ka[1].jacobiRot) / scale, std::abs(ks.back().jacobiTrans - ka[1].jacobiTrans)), 1e-5);
+              std::max(std::abs(ks.back().jacobiRot - ka[1].jacobiRot) / scale, std::abs(ks.back().jacobiTrans - ka[1].jacobiTrans)), 1e-7);
     }
 }
 static Vec3 surfacePoint(vh::Rng& g, int shape, const std::vector<double>& par);
@@ -165,7 +185,7 @@ static Vec3 surfacePoint(vh::Rng& g, int shape, const std::vector<double>& par);
 // are affected depends on what ran before in the process, hence a batch instead of a single witness).
 static void caseLegacyBatch(const std::string& cls, const std::vector<double>& v) {
     emitI("p.geo.legacy", cls, v); std::puts("O p.geo.legacy -");
-    vh::Rng g((uint64_t)v[0]); int nshots = (int)v[1], shortOnes = 0, onPlane = 0, endWrong = 0;
+    vh::Rng g((uint64_t)v[0]); int nshots = (int)v[1], shortOnes = 0, onPlane = 0, endWrong = 0, bookBad = 0;
     for (int k = 0; k < nshots; ++k) {
         int shape = g.below(4); double r = g.range(0.5, 2); std::vector<double> par;
         if (shape <= 1) par = {r, 0, 0}; else if (shape == 2) par = {g.range(0.5, 2), g.range(0.5, 2), g.range(0.5, 2)}; else { double R = g.range(1, 2); par = {R, g.range(0.25, 0.7) * R, 0}; }
@@ -174,12 +194,14 @@ static void caseLegacyBatch(const std::string& cls, const std::vector<double>& v
         t = Vec3(UnitVec3(t - (~t * nrm) * nrm)); double L = g.range(0.5, 2.5) * scale;
         Geodesic gd; GeodesicOptions opts;
         try { geo->shootGeodesicInDirectionUntilLengthReached(ps, UnitVec3(t), L, opts, gd); } catch (const std::exception&) { ++shortOnes; continue; }
+        bookBad += geodesicBookkeeping(gd, *geo, scale, 1e-6);
         if (std::abs(gd.getLength() - L) > 1e-9 * scale) { ++shortOnes; if (std::abs(gd.getPointQ()[0]) < 1e-6 * scale) ++onPlane; }
         else { Vec3 xe, te; rk4Geodesic(*geo, ps, t, L, 2000, xe, te); if ((gd.getPointQ() - xe).norm() > 1e-4 * scale) ++endWrong; }
     }
     vh::D("p.geo.legacy." + cls + ".short=" + std::to_string(shortOnes) + ".of=" + std::to_string(nshots) + ".stopped_on_plane_x0=" + std::to_string(onPlane));
     vh::P("legacy_length_reached", "ContactGeometry.shootGeodesicInDirectionUntilLengthReached." + cls + ".length_reached", shortOnes, 0);
     vh::P("legacy_end_point", "ContactGeometry.shootGeodesicInDirectionUntilLengthReached." + cls + ".end_point", endWrong, 0);
+    vh::P("knot_bookkeeping", "ContactGeometry.shootGeodesicInDirectionUntilLengthReached." + cls + ".bookkeeping", bookBad, 0);
 }
 // two-point problem: analytic vs orthogonal (implicit Newton) method, sphere and cylinder, short geodesics
 static void caseTwoPoint(const std::string& cls, const std::vector<double>& v) {
@@ -273,6 +295,12 @@ static void degenerate(vh::Rng& g, long n) {
         caseImplicit("outer_equator", {3, 2, 0.6, 0, 2.6, 0, 0, 0, 1, 0, 4.0});
         caseImplicit("inner_equator", {3, 2, 0.6, 0, 1.4, 0, 0, 0, 1, 0, 2.0});
         if (it == 0) caseLegacyBatch("legacy_batch", {4711, 60});
+        // many knots, once per run (review E, C47 M1): the frame is the product of up to 999 incremental rotations and is never
+        // re-orthogonalised; the knot predicates (on surface, unit tangent, tangent orthogonal to the normal) apply to every knot
+        if (it == 0) { int N = 100 + g.below(901); Vec3 p0 = rndUnit(g), t; do { t = rndUnit(g); } while ((t % p0).norm() < 0.3);
+            std::vector<double> v = {1.7}; push3(v, 1.7 * p0); push3(v, t); v.push_back(7.3 * 1.7); v.push_back(N); caseAnalytic(true, "many_knots", v);
+            N = 100 + g.below(901); double u = g.range(-PI, PI); Vec3 q0(0.8 * std::cos(u), 0.8 * std::sin(u), 0.3), nq(std::cos(u), std::sin(u), 0); do { t = rndUnit(g); } while ((t % nq).norm() < 0.3);
+            std::vector<double> w = {0.8}; push3(w, q0); push3(w, t); w.push_back(9.1); w.push_back(N); caseAnalytic(false, "many_knots", w); }
     }
 }
 static void replay() {
